@@ -471,6 +471,162 @@ def run_dgram_case(case: dict) -> Outcome:
         sock.close()
 
 
+# ----------------------------------------------------------------------------------------------
+# lock contention: the thread-safe clients include the lock acquisition time in the budget.  The client's locks are
+# created through the module global `threading` of clients/tcp.py / clients/udp.py; the harness substitutes a lock
+# whose acquire() waits in *virtual* time until a generated release instant (another thread finishing its operation).
+
+
+class VirtualLock:
+    def __init__(self, world: World) -> None:
+        self.world = world
+        self.held_until: float | None = None  # held by "another thread" until this virtual time
+        self.owned = False
+        self.waited = 0.0
+
+    def acquire(self, blocking: bool = True, timeout: float = -1) -> bool:
+        w = self.world
+        busy = self.owned or (self.held_until is not None and w.now < self.held_until)
+        if not busy:
+            self.owned = True
+            return True
+        if self.owned:
+            raise HarnessError("virtual lock re-acquired by its owner")
+        if not blocking:
+            return False
+        assert self.held_until is not None
+        if timeout is None or timeout < 0 or w.now + timeout >= self.held_until:
+            wait = self.held_until - w.now
+            w.now = self.held_until
+            w.total_waited += wait
+            self.waited += wait
+            w.run_due()
+            self.owned = True
+            return True
+        w.now += timeout
+        w.total_waited += timeout
+        self.waited += timeout
+        w.run_due()
+        return False
+
+    def release(self) -> None:
+        if not self.owned:
+            raise RuntimeError("release unlocked lock")
+        self.owned = False
+
+    def __enter__(self) -> bool:
+        return self.acquire()
+
+    def __exit__(self, *a: Any) -> None:
+        self.release()
+
+    def locked(self) -> bool:
+        return self.owned or (self.held_until is not None and self.world.now < self.held_until)
+
+
+class _patched_threading:
+    def __init__(self, module: Any, world: World, created: list) -> None:
+        self.module = module
+        self.world = world
+        self.created = created
+
+    def __enter__(self) -> None:
+        self.real = self.module.threading
+        ns = types.SimpleNamespace(**{k: getattr(self.real, k) for k in dir(self.real) if not k.startswith("__")})
+
+        def make_lock() -> VirtualLock:
+            lock = VirtualLock(self.world)
+            self.created.append(lock)
+            return lock
+
+        ns.Lock = make_lock
+        self.module.threading = ns
+
+    def __exit__(self, *a: Any) -> None:
+        self.module.threading = self.real
+
+
+@st.composite
+def st_lock_case(draw: st.DrawFn, tier: str) -> dict:
+    return {
+        "kind": draw(st.sampled_from(["tcp-recv", "tcp-send", "udp-recv", "udp-send"])),
+        "lock_free_at": draw(st.sampled_from([0.25, 0.75, 1.5, 2.25, 4.75])),
+        "timeout": draw(st.sampled_from([0, 1, 2, 3, 5, "inf"])),
+        # recv: the packet is complete at this virtual time; send: the kernel has room at this time
+        "ready_at": draw(st.sampled_from([0.0, 0.5, 1.25, 2.5, 3.75, 6.5])),
+        "retry_interval": draw(st.sampled_from(RETRY)),
+    }
+
+
+def run_lock_case(case: dict) -> Outcome:
+    import easynetwork.clients.tcp as tcp_mod
+    import easynetwork.clients.udp as udp_mod
+
+    world = World()
+    tcp = case["kind"].startswith("tcp")
+    sock = PeeredFakeSocket(world, socket.SOCK_STREAM if tcp else socket.SOCK_DGRAM)
+    try:
+        retry = math.inf if case["retry_interval"] == "inf" else float(case["retry_interval"])
+        factory = make_selector_factory(world, sock)
+        locks: list[VirtualLock] = []
+        T = case["timeout"]
+        budget = math.inf if T == "inf" else float(T)
+        L = case["lock_free_at"]
+        R = case["ready_at"]
+        recv = case["kind"].endswith("recv")
+        with virtual_clock(world):
+            with _patched_default_selector(factory), _patched_threading(tcp_mod if tcp else udp_mod, world, locks):
+                if tcp:
+                    client: Any = TCPNetworkClient(sock, StreamProtocol(StringLineSerializer()), retry_interval=retry)
+                else:
+                    client = UDPNetworkClient(sock, DatagramProtocol(StringLineSerializer()), retry_interval=retry)
+            if len(locks) != 2:
+                raise HarnessError(f"expected the client to create 2 locks, got {len(locks)}")
+            send_lock, receive_lock = locks
+            (receive_lock if recv else send_lock).held_until = L
+            if recv:
+                if tcp:
+                    world.at(R, lambda: sock.env_arrive(b"hello\n"))
+                else:
+                    world.at(R, lambda: sock.env_arrive_dgram(b"hello"))
+            else:
+                if tcp:
+                    sock.tx_capacity = 0
+                    world.at(R, lambda: sock.env_drain(None))
+                else:
+                    sock.send_script = deque([("block",)] * 0)
+            world.run_due()
+            start = world.now
+            try:
+                if recv:
+                    value = client.recv_packet(timeout=None if T == "inf" else budget)
+                else:
+                    value = client.send_packet("hello", timeout=None if T == "inf" else budget)
+                outcome = "ok"
+            except TimeoutError:
+                outcome = "timeout"
+            except (HarnessHang, SpinGuard) as exc:
+                raise Violation("hang", f"{case['kind']} blocks: {exc}") from exc
+            end = world.now
+        deadline = start + budget
+        ready = max(L, R) if (recv or tcp) else L  # a datagram send never waits for the kernel here
+        if _tie(ready, deadline) or _tie(L, deadline):
+            return Outcome(classes=("tie-discarded",))
+        exp, t_exp = ("ok", max(start, ready)) if ready <= deadline else ("timeout", deadline)
+        detail = {"api": case["kind"], "timeout": T, "lock_free_at": L, "ready_at": R, "end": end}
+        if outcome != exp or abs(end - t_exp) > 1e-6:
+            kind = "overrun" if end > t_exp + 1e-6 or (outcome == "ok" and exp == "timeout") else "gave-up-early"
+            raise Violation(
+                kind, f"{case['kind']}(timeout={T}) with the lock held until t={L}, ready at t={R}: {outcome} at t={end}, expected {exp} at t={t_exp}", **detail
+            )
+        if recv and outcome == "ok" and value != "hello":
+            raise Violation("wrong-packet", f"got {value!r}", **detail)
+        nt = budget not in (0, math.inf) and L > 0 and R > L
+        return Outcome(nontrivial=nt, classes=(case["kind"], f"end-{outcome}", "lock-then-io-wait" if R > L else "lock-wait-only"))
+    finally:
+        sock.close()
+
+
 CHECK = Check(
     id="C11",
     level="exploration",
@@ -486,9 +642,11 @@ CHECK = Check(
         Layer("recv", st_recv_case, run_recv_case, {"quick": 1500, "thorough": 8000}),
         Layer("send", st_send_case, run_send_case, {"quick": 800, "thorough": 4000}),
         Layer("datagram", st_dgram_case, run_dgram_case, {"quick": 600, "thorough": 3000}),
+        Layer("lock", st_lock_case, run_lock_case, {"quick": 400, "thorough": 1500}),
     ],
     assumptions=[
         "time is virtual: perf_counter of lowlevel/_utils.py and the selector are replaced, so only waits inside select() take time (processing time is zero)",
-        "the socket is a socket.socket subclass with a simulated data path; TLS blocking transport and lock-contention (real threads) are not part of these layers",
+        "the socket is a socket.socket subclass with a simulated data path; the TLS blocking transport is not part of these layers",
+        "lock layer: the clients' threading.Lock objects are replaced (through the module global `threading` of clients/tcp.py and clients/udp.py) by a lock whose acquire() waits in virtual time until a generated release instant",
     ],
 )
